@@ -33,10 +33,7 @@ CHECK = {
         "isgr.cases_converged": 17,
         "isgr.idle_reruns_checked": 31,
         "isgr.conflicts_resolved": 30,
-        "isgr.midflight_stops_with_parked_revision": 3,
-        "isgr.mid_window_local_writes": 2,
         "isgr.reads_inside_replicated_write_windows": 20,
-        "isgr.pulled_revisions_refused_once_by_a_transient_storage_error": 1,
         "blip.cases_V3": 10,
         "blip.cases_V4": 10,
         "blip.client_pushes": 83,
